@@ -293,20 +293,30 @@ def main(argv):
         muts = [lambda o: o.get_event_type('ta')['m1'].make_optional(), lambda o: o.get_event_type('ta')['m1'].make_multivalued(),
                 lambda o: o.get_object_type('n').set_data_type(__import__('edxml.ontology', fromlist=['DataType']).DataType('number:smallint')),
                 lambda o: o.get_event_type('ta').create_property('new', 'o').make_optional(),
+                lambda o: o.get_object_type('o').set_regex_hard('[a-y]+'),
+                lambda o: o.get_object_type('o').set_data_type(__import__('edxml.ontology', fromlist=['DataType']).DataType('string:1:mc:u')),
                 lambda o: o.get_event_type('ta')['oo'].make_single_valued()]
         steps = []
-        for step in range(rng.randint(2, 8)):
-            if rng.random() < 0.4:
-                k = rng.randrange(len(muts))
+        # the first histories are directed: validate every event, apply ONE change, validate every event again
+        plan = None
+        if it < len(muts):
+            plan = [('v', k) for k in range(len(events))] + [('m', it)] + [('v', k) for k in range(len(events))]
+        for step in range(len(plan) if plan else rng.randint(2, 8)):
+            if (plan[step][0] == 'm') if plan else (rng.random() < 0.4):
+                k = plan[step][1] if plan else rng.randrange(len(muts))
                 try:
                     muts[k](onto)
                 except Exception:
                     pass
                 steps.append('mutate%d' % k)
             else:
-                k = rng.randrange(len(events))
+                k = plan[step][1] if plan else rng.randrange(len(events))
                 got = v.is_valid(events[k])
-                want = EventValidator(onto).is_valid(events[k])        # a fresh validator on the current ontology
+                # the reference: a new validator over a new ontology object read back from the current serialisation (shares no cache with `onto`)
+                from edxml.ontology import Ontology as _Ontology
+                fresh_onto = _Ontology()
+                fresh_onto.update(etree.fromstring(G.document([etree.tostring(onto.generate_xml()).decode('utf-8')]))[0])
+                want = EventValidator(fresh_onto).is_valid(events[k])
                 ck.dist('history-rep:' + type(events[k]).__name__)
                 steps.append('validate%d' % k)
                 ck.cov['evaluations'] += 1
